@@ -77,6 +77,9 @@ func rtBaseRules() []string {
 func getRT() (*rtEnv, error) {
 	rtOnce.Do(func() {
 		e := &rtEnv{ca: NewCA("verif routing CA"), peers: map[string]*Peer{}}
+		if envDecoy != nil {
+			e.peers["ENV"] = envDecoy
+		}
 		mk := func(name, ip string, tlsNames []string, h func(*PeerConn)) *Peer {
 			if rtErr != nil {
 				return nil
@@ -197,6 +200,8 @@ type RTConfig struct {
 	ConnectTo  []string          `json:"connect_to,omitempty"` // templates with @X.host @X.port
 	Creds      []string          `json:"creds,omitempty"`      // templates user:pass@<host>:<port>
 	MITM       bool              `json:"mitm,omitempty"`
+	// TLSListener: the proxy is an HTTPS proxy: clients reach it over TLS (what they ask for stays the same)
+	TLSListener bool `json:"tls_listener,omitempty"`
 }
 
 type RTReq struct {
@@ -336,6 +341,7 @@ func genRTConfig(t *rapid.T, withCreds bool) RTConfig {
 		c.DirectDom = []string{`localhost`, `^b\.`}
 	}
 	c.Localhost = rapid.SampledFrom([]string{"allow", "allow", "direct"}).Draw(t, "localhost")
+	c.TLSListener = rapid.IntRange(0, 3).Draw(t, "tlslistener") == 0
 	c.Retries = rapid.Bool().Draw(t, "retries")
 	nr := rapid.SampledFrom([]int{0, 0, 1, 1, 2, 3}).Draw(t, "nct")
 	prevSrc := ""
@@ -583,7 +589,7 @@ func (e *rtEnv) refRoute(cfg RTConfig, r RTReq) route {
 // Execution
 
 func (e *rtEnv) startProxy(cfg RTConfig) (*ProxyInst, error) {
-	o := ProxyOpts{CA: e.ca, RootCAs: e.ca.Pool, MITM: cfg.MITM, ProxyLocalhost: forwarder.ProxyLocalhostMode(cfg.Localhost), DirectDomains: cfg.DirectDom,
+	o := ProxyOpts{CA: e.ca, RootCAs: e.ca.Pool, ListenerTLS: cfg.TLSListener, MITM: cfg.MITM, ProxyLocalhost: forwarder.ProxyLocalhostMode(cfg.Localhost), DirectDomains: cfg.DirectDom,
 		DialTimeout: 3 * time.Second, ConnectTimeout: 5 * time.Second, ShutdownTimeout: 2 * time.Second}
 	ui := ""
 	if cfg.UserInfo != "" {
@@ -623,6 +629,7 @@ func (e *rtEnv) startProxy(cfg RTConfig) (*ProxyInst, error) {
 	if px != nil {
 		px.Tag = tag
 		px.Seen = seen.list
+		px.TLSListener = cfg.TLSListener
 	}
 	return px, err
 }
@@ -680,7 +687,16 @@ func (e *rtEnv) rtExchange(px *ProxyInst, r RTReq, vid string) rtObs {
 	}
 	defer tc.Close()
 	tc.SetDeadline(time.Now().Add(15 * time.Second))
-	br := bufio.NewReader(tc)
+	var conn net.Conn = tc
+	if px.TLSListener {
+		t := tls.Client(tc, &tls.Config{RootCAs: e.ca.Pool, ServerName: "127.0.0.1"})
+		if err := t.Handshake(); err != nil {
+			o.err = fmt.Errorf("TLS to the proxy's listener: %w", err)
+			return o
+		}
+		conn = t
+	}
+	br := bufio.NewReader(conn)
 	hdr := ""
 	for _, f := range r.Headers {
 		hdr += f.Name + ": " + f.Value + "\r\n"
@@ -700,12 +716,12 @@ func (e *rtEnv) rtExchange(px *ProxyInst, r RTReq, vid string) rtObs {
 	}
 	if r.Kind == "mitm" {
 		// CONNECT, TLS with the proxy's generated certificate, then an origin-form request: https with an implied port
-		fmt.Fprintf(tc, "CONNECT %s HTTP/1.1\r\nHost: %s\r\n\r\n", target, target)
+		fmt.Fprintf(conn, "CONNECT %s HTTP/1.1\r\nHost: %s\r\n\r\n", target, target)
 		m, err := ReadResponse(br, "CONNECT")
 		if err != nil || m.Status != 200 {
 			o.err = fmt.Errorf("MITM CONNECT: %v", err)
 		} else {
-			t := tls.Client(tc, &tls.Config{RootCAs: e.ca.Pool, ServerName: host})
+			t := tls.Client(conn, &tls.Config{RootCAs: e.ca.Pool, ServerName: host})
 			if err := t.Handshake(); err != nil {
 				o.err = fmt.Errorf("MITM handshake: %w", err)
 			} else {
@@ -720,7 +736,7 @@ func (e *rtEnv) rtExchange(px *ProxyInst, r RTReq, vid string) rtObs {
 			}
 		}
 	} else if r.Kind == "connect" {
-		fmt.Fprintf(tc, "CONNECT %s HTTP/1.1\r\nHost: %s\r\n%s\r\n", target, target, strings.ReplaceAll(hdr, "Content-Length: 2\r\n", ""))
+		fmt.Fprintf(conn, "CONNECT %s HTTP/1.1\r\nHost: %s\r\n%s\r\n", target, target, strings.ReplaceAll(hdr, "Content-Length: 2\r\n", ""))
 		m, err := ReadResponse(br, "CONNECT")
 		if err != nil {
 			o.err = err
@@ -737,7 +753,7 @@ func (e *rtEnv) rtExchange(px *ProxyInst, r RTReq, vid string) rtObs {
 				if r.Method == "POST" {
 					inner += "Content-Length: 2\r\n"
 				}
-				fmt.Fprintf(tc, "%s /in-tunnel HTTP/1.1\r\nHost: %s\r\nX-Vid: %s\r\n%s\r\n%s", r.Method, target, vid, inner, body)
+				fmt.Fprintf(conn, "%s /in-tunnel HTTP/1.1\r\nHost: %s\r\nX-Vid: %s\r\n%s\r\n%s", r.Method, target, vid, inner, body)
 				m2, err := ReadResponse(br, r.Method)
 				if err != nil {
 					o.err = fmt.Errorf("inside tunnel: %w", err)
@@ -748,7 +764,7 @@ func (e *rtEnv) rtExchange(px *ProxyInst, r RTReq, vid string) rtObs {
 			}
 		}
 	} else {
-		fmt.Fprintf(tc, "%s http://%s%s HTTP/1.1\r\nHost: %s\r\nX-Vid: %s\r\n%s\r\n%s", r.Method, urlHost, path, urlHost, vid, hdr, body)
+		fmt.Fprintf(conn, "%s http://%s%s HTTP/1.1\r\nHost: %s\r\nX-Vid: %s\r\n%s\r\n%s", r.Method, urlHost, path, urlHost, vid, hdr, body)
 		m, err := ReadResponse(br, r.Method)
 		if err != nil {
 			o.err = err
@@ -959,6 +975,9 @@ func summarize(ms []*Msg) []string {
 
 func classifyRT(c RTCase) (bool, string, []string) {
 	cls := []string{"upstream-" + c.Cfg.Upstream, "localhost-" + c.Cfg.Localhost}
+	if c.Cfg.TLSListener {
+		cls = append(cls, "https-proxy-listener")
+	}
 	if len(c.Cfg.DirectDom) > 0 {
 		cls = append(cls, "direct-domains")
 	}
